@@ -7,7 +7,10 @@ visited atoms under the neighbour table, and a *recursion-depth obligation*
 (the function is a C function that recurses once per newly visited atom); and
 structure/segments.py::get_segment_starts_for / get_segment_positions (behind
 get_residue_/get_chain_ starts_for and positions): for every index the result is
-the segment the atom lies in, ValueError exactly when some index names no atom."""
+the segment the atom lies in, ValueError exactly when some index names no atom;
+and structure/residues.py::get_residue_starts, structure/chains.py::get_chain_starts:
+the result is 0, then exactly the atoms at which a residue / chain boundary lies
+(ascending), then the number of atoms when the exclusive stop is asked for."""
 import z3
 from pyvc.api import Case, sym_int, sym_c, implies, iff
 from pyvc.core import CV, zint, zbool, simp
@@ -25,8 +28,9 @@ ASSUMPTIONS = [
     "that nothing outside the component is visited needs graph reachability and is not claimed",
 ]
 UNVERIFIED = [
-    "get_residue_starts / get_chain_starts and the other functions of segments.py (get_segment_masks, apply_/spread_segment_wise, "
-    "segment_iter): NumPy-vectorised or 2-d slice assignment; not under contract in this build (bounded stand-in only)",
+    "the other functions of segments.py (get_segment_masks, apply_/spread_segment_wise, segment_iter) and the wrappers in residues.py / "
+    "chains.py that pass get_*_starts(add_exclusive_stop=True) on to them: 2-d slice assignment, higher-order functions; not under "
+    "contract in this build (bounded stand-in only)",
     "get_molecule_indices / get_molecule_masks / molecule_iter drivers, BondList.get_all_bonds",
 ]
 
@@ -119,7 +123,7 @@ CASES = [
          recursive=(BONDS + "::_find_connected",),
          ensures=[("dfs", ens_fc)], timeout=20),
 ]
-MIN_OBLIGATIONS = 40
+MIN_OBLIGATIONS = 60
 
 
 # ---- segments.py: the segment of a given atom (get_residue_/get_chain_ starts_for, positions) ----------------
@@ -178,10 +182,75 @@ def ens_starts_for(I, env):
             ("no_later_start_before_the_atom", implies(z3.And(inside, j >= 0, j < g["ns"] - 1, z3.Select(g["S"], j) <= x), z3.Select(g["S"], j) <= r))]
 
 
+# ---- residues.py / chains.py: where residues and chains start -------------------------------------------------
+RES, CHN = "structure/residues.py", "structure/chains.py"
+ASSUMPTIONS.append(
+    "get_residue_starts / get_chain_starts: the atom array is modelled as an object with the annotation arrays chain_id, res_id (int64 holding values of the int32 range: what every file format can give), "
+    "ins_code, res_name of one length n >= 0 and array_length() == n; string annotations are held as integer codes (compared for "
+    "equality only); library contracts (not proved) for slicing, element-wise != / < / |, np.diff, np.where, array + 1, np.concatenate")
+
+
+def spec_atoms(I):
+    from pyvc.heap import Obj, Class, Native
+    n = sym_int(I, "n_atoms", 0, 2 ** 31 - 2)
+    cols = {"chain_id": SymArr("chain_id", None, [n], readonly=True), "res_id": SymArr("res_id", "int64", [n], readonly=True),
+            "ins_code": SymArr("ins_code", None, [n], readonly=True), "res_name": SymArr("res_name", None, [n], readonly=True)}
+    k = z3.Int("k!r")
+    I.ctx.assume(z3.ForAll([k], z3.And(z3.Select(cols["res_id"].arr, k) >= -2 ** 31, z3.Select(cols["res_id"].arr, k) <= 2 ** 31 - 1)))
+    cols["res_id"].elem_bounds = (-2 ** 31, 2 ** 31 - 1)
+    length = Native("array_length", lambda I_, a, k_: n)
+    length.is_method = True
+    cls = Class("SpecAtomArray", (), {"array_length": length}, None, "user")
+    return n, cols, Obj(cls, dict(cols))
+
+
+def setup_starts(kind, stop):
+    def setup(I):
+        n, cols, atoms = spec_atoms(I)
+        C, R, N, X = (cols[c].arr for c in ("chain_id", "res_id", "ins_code", "res_name"))
+
+        def boundary(i):
+            """a new residue / chain starts at atom i (i >= 1)"""
+            if kind == "residue":
+                return z3.Or(z3.Select(C, i) != z3.Select(C, i - 1), z3.Select(R, i) != z3.Select(R, i - 1),
+                             z3.Select(N, i) != z3.Select(N, i - 1), z3.Select(X, i) != z3.Select(X, i - 1))
+            return z3.Or(z3.Select(C, i) != z3.Select(C, i - 1), z3.Select(R, i) < z3.Select(R, i - 1))
+        g = {"n": n, "boundary": boundary, "stop": stop}
+        I.ghost["starts"] = g
+        return {"args": [atoms], "kwargs": {"add_exclusive_stop": stop}, "ghost": g}
+    return setup
+
+
+def ens_segment_starts(I, env):
+    g = I.ghost["starts"]
+    n, stop = g["n"], g["stop"]
+    res = env.vars["result"]
+    L = zint(res.shape[0])
+    q, i = I.ctx.fresh_int("q"), I.ctx.fresh_int("i")
+    p = z3.Int("p!e")
+    R = lambda x: z3.Select(res.arr, x)
+    last = L - 1 if stop else L          # entries that are starts (without the exclusive stop)
+    return [("no_atoms_no_starts", implies(n == 0, L == 0)),
+            ("first_start_is_0", implies(n > 0, z3.And(L >= 1, R(0) == 0))),
+            ("exclusive_stop_is_the_length", implies(n > 0, R(L - 1) == n) if stop else z3.BoolVal(True)),
+            ("strictly_ascending", implies(z3.And(n > 0, q >= 0, q < L - 1), R(q) < R(q + 1))),
+            ("every_start_is_a_boundary", implies(z3.And(n > 0, q >= 1, q < last), z3.And(R(q) >= 1, R(q) < n, g["boundary"](R(q))))),
+            # every boundary is a start -- stated without an existential: no boundary lies strictly between two
+            # consecutive entries, none before the first start (it is 0), none after the last entry
+            ("no_boundary_between_consecutive_entries", implies(z3.And(n > 0, q >= 0, q < L - 1, R(q) < i, i < R(q + 1), i < n), z3.Not(g["boundary"](i)))),
+            ("no_boundary_after_the_last_entry", implies(z3.And(n > 0, L >= 1, R(L - 1) < i, i < n), z3.Not(g["boundary"](i))))]
+
+
+for _kind, _rel, _fn in (("residue", RES, "get_residue_starts"), ("chain", CHN, "get_chain_starts")):
+    for _stop in (False, True):
+        CASES.append(Case(f"{_rel}::{_fn}", f"add_exclusive_stop={_stop}", setup=setup_starts(_kind, _stop), overflow=False,
+                          ensures=[("starts", ens_segment_starts)], raises={}, timeout=25))
+
+
 CASES.append(Case(SEG + "::get_segment_positions", setup=setup_seg, overflow=False, ensures=[("positions", ens_positions)],
-                  raises={"ValueError": lambda I, env: I.ghost["seg"]["no_such_atom"]}, timeout=20))
+                  raises={"ValueError": lambda I, env: I.ghost["seg"]["no_such_atom"]}, timeout=25))
 CASES.append(Case(SEG + "::get_segment_starts_for", setup=setup_seg, overflow=False, ensures=[("starts_for", ens_starts_for)],
-                  raises={"ValueError": lambda I, env: I.ghost["seg"]["no_such_atom"]}, timeout=20))
+                  raises={"ValueError": lambda I, env: I.ghost["seg"]["no_such_atom"]}, timeout=25))
 
 
 from pyvc.api import bounded_via_script
